@@ -34,6 +34,22 @@ fn main() {
             }
             c25::run(&ctx)
         }
+        "GEN" => {
+            // capyv-lib GEN --n N --out DIR [--salt S]: dumps the deterministic input mix used by the
+            // in-process front-end checks, for the checks that drive the real CLI (C06)
+            let get = |flag: &str| args.extra.iter().position(|a| a == flag).and_then(|i| args.extra.get(i + 1)).cloned();
+            let n: usize = get("--n").and_then(|x| x.parse().ok()).unwrap_or(1000);
+            let out = get("--out").unwrap_or_else(|| "/verif/work/gen".to_string());
+            let salt = get("--salt").unwrap_or_else(|| "C06".to_string());
+            let mut inputs = gens::mixed_inputs(args.seed, &salt, n, 80);
+            inputs.extend(gens::type_error_inputs());
+            std::fs::create_dir_all(&out).expect("create output directory");
+            for (i, t) in inputs.iter().enumerate() {
+                std::fs::write(format!("{out}/{i:06}.capy"), t).expect("write input");
+            }
+            eprintln!("wrote {} inputs to {out}", inputs.len());
+            0
+        }
         "C26" => c26::run(&ctx),
         "C27" => c27::run(&ctx),
         other => {
